@@ -219,6 +219,15 @@ def check(ctx):
             return {"Gt": "false", "Le": "true"}.get(op, "strict:" + op)
         return None
     fm = [(bb, e, ls, fresh_atom(e)) for bb, e, ls in sw if fresh_atom(e)]
+    # the clock is read when the cookie is examined, not earlier in the connection
+    for bb, e, ls, lab in fm:
+        nows = [c[4] for c in calls_in(e, "SystemTime::now")]
+        recv = [c for c in calls_in(e) if c[5] and c[5][0].endswith("login::serverbound::CookieResponsePacket")]
+        reqs = L.sites("send:login::clientbound::CookieRequest[passage:authentication]")
+        okn = bool(nows) and bool(reqs) and all(always_before(g, reqs[0][0], nb) for nb in nows)
+        ctx.check(okn, RG, "C02/accept-guards/now-is-current", site(body, bb),
+                  reason="the expiry test uses a clock reading taken at %s, before the cookie was even requested" % [site(body, nb) for nb in nows],
+                  detail="expiry compared against a clock reading taken after the cookie request")
     if not fm:
         ctx.fail(RG, "C02/accept-guards/not-expired", acc_site,
                  "anchor-missing: no comparison of cookie.timestamp + self.auth_cookie_expiry with the current time guards the accept point")
